@@ -308,6 +308,9 @@ def to_poly(e):
         if l is None or r is None:
             return None
         return l + r if e[1] == "+" else l - r if e[1] == "-" else l * r
+    if k == "call" and e[1] in ("MIN", "MAX") and len(e[2]) == 2:
+        a, b = sorted(unparse(strip_casts(x)) for x in e[2])
+        return Poly.sym("%s(%s, %s)" % (e[1], a, b))
     if k in ("call", "mem", "idx", "bin", "tern", "un"):
         return Poly.sym(unparse(e))
     return None
